@@ -504,11 +504,108 @@ def bookkeeping(r, F):
               "Lfu::update_frequencies does not add the hash to the sketch", ln=ufn.lo)
 
 
+def _variant_of(fn, op):
+    """variant name of an enum-valued operand built from a constant (through moves), or None when it is read from memory"""
+    seen = set()
+    while op is not None and op.place is not None and op.place.is_local() and op.place.local not in seen:
+        seen.add(op.place.local)
+        ds = [d for d in fn.defs().get(op.place.local, []) if d[2] == "assign" and not fn.blocks[d[0]].cleanup]
+        if len(ds) != 1:
+            return None
+        rv = ds[0][3].rv
+        if rv.k == "agg" and rv.j.get("variant"):
+            return rv.j["variant"]
+        if rv.k == "use":
+            op = rv.ops[0]
+            continue
+        return None
+    return None
+
+
+def queue_accounting(r, F):
+    """S3-FIFO and w-TinyLFU keep one weight counter and one tag per queue; the overflow / promotion tests read those counters. Every step that takes a record
+    out of queue X either puts it back into X (refresh) or subtracts its weight from X's counter on every path; every step that links a record into X is preceded
+    (or followed) by the matching addition and by tagging the record with X."""
+    SPEC = {
+        EV + "::s3fifo::S3Fifo": {"lists": {"small_queue": ("small_weight", "Small"), "main_queue": ("main_weight", "Main")}, "tagfield": "queue"},
+        EV + "::lfu::Lfu": {"lists": {"window": ("window_weight", "Window"), "probation": ("probation_weight", "Probation"), "protected": ("protected_weight", "Protected")}, "tagfield": "queue"},
+    }
+    total = 0
+    for A, spec in sorted(SPEC.items()):
+        name = A.rsplit("::", 1)[-1]
+        bodies = [f for f in F.all_fns("P") if (F.P.get(f.root, f).self_ty or "").startswith(A) and not f.id.rsplit("::", 1)[-1] in ("new", "dump")]
+        roots = {}
+        for f in bodies:
+            roots.setdefault(f.root, []).append(f)
+        for rid, fs in sorted(roots.items()):
+            root = F.P.get(rid)
+            if root is None or "::tests::" in root.short or "test_utils" in root.short or root.id.rsplit("::", 1)[-1] in ("increase_queue_weight", "decrease_queue_weight"):
+                continue
+            for g in fs:
+                ops = [(f_, m, b) for (f_, m, gg, b) in list_ops(F, g, A, with_closures=False) if f_ in spec["lists"]]
+                if not ops:
+                    continue
+                # weight events of g
+                wev = {}   # (kind, X or "*") -> [block]
+                for fld, (wf, tag) in spec["lists"].items():
+                    for u in tables.field_updates(g, wf, A):
+                        if u["kind"] in ("add", "sub"):
+                            wev.setdefault((u["kind"], fld), []).append(u["block"])
+                for b in g.calls_to(r"::(in|de)crease_queue_weight$"):
+                    kind = "add" if b.term.callee.endswith("increase_queue_weight") else "sub"
+                    v = _variant_of(g, b.term.args[1])
+                    fld = [f_ for f_, (wf, tag) in spec["lists"].items() if tag == v]
+                    wev.setdefault((kind, fld[0] if fld else "*"), []).append(b.idx)
+                tags = {}
+                for b in g.blocks:
+                    if b.cleanup:
+                        continue
+                    for st in b.stmts:
+                        if st.k == "assign" and st.place.proj and st.place.fields()[-1:] == [spec["tagfield"]]:
+                            v = _variant_of(g, st.rv.ops[0]) if st.rv.k == "use" else (st.rv.j.get("variant") if st.rv.k == "agg" else None)
+                            fld = [f_ for f_, (wf, tag) in spec["lists"].items() if tag == v]
+                            if fld:
+                                tags.setdefault(fld[0], []).append(b.idx)
+                none = [b.idx for b in g.calls_to(r"FromResidual")] + [b.idx for b in g.blocks if not b.cleanup for s_ in b.stmts if s_.k == "assign" and s_.place.local == 0 and s_.rv.k == "agg" and s_.rv.j.get("variant") == "None"]
+                gr = g.graph()
+                for (X, m, b) in ops:
+                    links_X = [bb for (x2, m2, bb) in ops if x2 == X and m2 == "push_back"]
+                    if m in ("pop_front", "pop_back", "remove_from_ptr", "remove"):
+                        total += 1
+                        through = set(links_X) | set(wev.get(("sub", X), [])) | set(wev.get(("sub", "*"), [])) | set(none)
+                        # every path leaving the unlink site reaches a re-link into X, a subtraction from X's counter, or a `nothing was unlinked` exit, before returning / unlinking again
+                        reach = g.reachable([s_ for s_ in gr[b] if not g.blocks[s_].cleanup], avoid=through)
+                        bad = [t for t in g.returns() + [b] if t in reach]
+                        if g is not root and not bad:
+                            pass
+                        if g is not root and bad and not wev:
+                            # a closure that only unlinks (e.g. `|| self.protected.pop_front()`): its result is accounted for by the caller; judge at the call that receives the closure
+                            site = [c.idx for c in root.calls() if any(a.place is not None and ("%s:%d:" % (g.file.rsplit("/", 1)[-1], g.lo)) in (root.local_ty(a.place.local) or "") for a in c.term.args)]
+                            rw = [x.idx for x in root.calls_to(r"::decrease_queue_weight$")] + [u["block"] for fld2, (wf, tag) in spec["lists"].items() for u in tables.field_updates(root, wf, A) if u["kind"] == "sub"]
+                            rnone = [x.idx for x in root.calls_to(r"FromResidual")] + [bb.idx for bb in root.blocks if not bb.cleanup for s_ in bb.stmts if s_.k == "assign" and s_.place.local == 0 and s_.rv.k == "agg" and s_.rv.j.get("variant") == "None"]
+                            bad = [] if site and all(root.must_pass(sx, rw + rnone) for sx in site) else bad
+                        r.require(not bad, g, "%s: unlink from %s is re-linked or subtracted" % (name, X), "every path after %s on %s passes a push_back into it, `%s -= weight`, or a None exit" % (m, X, spec["lists"][X][0]),
+                                  "%s: a record is taken out of `%s` (%s) and a path returns without putting it back or subtracting its weight from %s: the counter drifts upwards and the queue's "
+                                  "overflow / capacity test fires for entries that are no longer there" % (name, X, m, spec["lists"][X][0]), ln=g.blocks[b].term.ln)
+                    elif m == "push_back":
+                        total += 1
+                        pre = set(wev.get(("add", X), [])) | set(bb for (x2, m2, bb) in ops if x2 == X and m2 != "push_back")
+                        okw = any(g.dominates(p_, b) for p_ in pre) or g.must_pass(b, list(wev.get(("add", X), [])))
+                        pret = set(tags.get(X, [])) | set(bb for (x2, m2, bb) in ops if x2 == X and m2 != "push_back")
+                        okt = any(g.dominates(p_, b) for p_ in pret) or g.must_pass(b, list(tags.get(X, [])))
+                        r.require(okw and okt, g, "%s: link into %s is counted and tagged" % (name, X), "`%s += weight` and tag %s accompany the push_back (or the record was just unlinked from the same queue)" % spec["lists"][X],
+                                  "%s: a record is linked into `%s` without %s%s: %s" % (name, X, "" if okw else "`%s += weight`" % spec["lists"][X][0], "" if okt else " the tag %s" % spec["lists"][X][1],
+                                  "the queue's counter no longer matches its content" if not okw else "`remove` dispatches on the tag and would unlink from the wrong list"), ln=g.blocks[b].term.ln)
+    if total < 20:
+        r.fail(None, "sites", "only %d queue link/unlink sites analysed (20+ confirmed on the pinned tree)" % total)
+
+
 def run(chk, F):
     chk.run_rule("C14.fifo", "FIFO: push back, pop front, no reordering on lookup", 4, fifo, F)
     chk.run_rule("C14.lru", "LRU: hint table, low-priority first, pop from the front, never the pin list, pool overflow only when over the share and re-run at every growth site, pin / unpin to the MRU end", 11, lru, F)
     chk.run_rule("C14.s3fifo", "S3-FIFO: ghost routing, small-first when over share, promotion at freq >= threshold else evict + ghost, main re-insertion while freq > 0, saturation", 6, s3fifo, F)
     chk.run_rule("C14.ghost-queue", "S3-FIFO ghost queue: push makes room for the incoming entry (pop while weight + incoming > capacity), update shrinks exactly, queue / set / weight move together", 7, ghost, F)
     chk.run_rule("C14.bookkeeping", "in-eviction flag follows list membership; remove unlinks from the tagged queue; lookups feed frequency / visited / sketch; resize reaches every derived capacity", 35, bookkeeping, F)
+    chk.run_rule("C14.queue-accounting", "S3-FIFO / w-TinyLFU: every unlink is re-linked or subtracted from its queue's weight on every path; every link is counted and tagged", 20, queue_accounting, F)
     chk.run_rule("C14.sieve", "SIEVE: tail insert, scan from the hand or head, visited -> clear + advance, unvisited -> evict, hand := successor, lookups only mark", 5, sieve, F)
     chk.run_rule("C14.lfu", "w-TinyLFU: window admission and overflow, head-to-head sketch comparison (window evicted only when strictly colder), access table", 5, lfu, F)
